@@ -2,6 +2,7 @@ package main
 
 import (
 	"fmt"
+	"math"
 	"os"
 	"strings"
 
@@ -73,6 +74,30 @@ func boundaryCases(emit func(*Case)) {
 			emit(&Case{A: x, B: y, Stream: "boundary.number"})
 			emit(&Case{A: aT(x), B: aT(y), Stream: "boundary.number"})
 			emit(&Case{A: oT("a", x), B: oT("a", y), Stream: "boundary.number"})
+		}
+	}
+	// 1b. the top half of uint64 (values no int64 holds) against the int64 with the same bits, the
+	// floats around 2^63 and 2^64, and each other; smaller unsigned values come out as uint/uint64
+	// through the random choice of kinds (several seeds per pair)
+	us := []*T{uT(1<<63 - 1), uT(1 << 63), uT(1<<63 + 1), uT(1<<63 + 2048), uT(1<<63 + 1<<62), uT(math.MaxUint64 - 2047), uT(math.MaxUint64 - 1), uT(math.MaxUint64),
+		uT(0), uT(255), uT(1 << 53), uT(1<<53 + 1)}
+	others := append([]*T{}, us...)
+	for _, i := range []int64{math.MinInt64, math.MinInt64 + 1, math.MinInt64 + 2048, -(1 << 62), -2048, -2, -1, 0, 255, math.MaxInt64, math.MaxInt64 - 1, 1 << 53, 1<<53 + 1} {
+		others = append(others, iT(i))
+	}
+	for _, f := range []float64{1 << 63, -(1 << 63), 1<<63 + 2048, 1<<63 - 1024, 1<<63 + 1<<62, 18446744073709549568, 1 << 64, 1<<64 + 4096, -1, -2048, 0, 255, 1 << 53, 0.5, -(1 << 62)} {
+		others = append(others, fT(f))
+	}
+	others = append(others, nT(), sT("9223372036854775808"), &T{K: KBig, S: "9223372036854775808"})
+	for _, x := range us {
+		for _, y := range others {
+			for k := uint64(0); k < 4; k++ {
+				ws, tag := 0x9E37*(k+1)+uint64(len(x.intText())), fmt.Sprint("kinds", k)
+				emit(&Case{A: x, B: y, Stream: "boundary.uint64", WSeed: ws, Tag: tag})
+				emit(&Case{A: y, B: x, Stream: "boundary.uint64", WSeed: ws, Tag: tag})
+				emit(&Case{A: aT(x, x), B: aT(y, x), Stream: "boundary.uint64", WSeed: ws, Tag: tag})
+				emit(&Case{A: oT("a", y), B: oT("a", x, "b", nT()), Stream: "boundary.uint64", WSeed: ws, Tag: tag})
+			}
 		}
 	}
 	// 2. null versus absent
